@@ -82,6 +82,7 @@ def run(F, R, ctx):
     R.note("C14: decided are the cache-consultation, registration and rollback clauses only; which names a module graph "
            "exposes (provide / only-in / prefix-in / mangling) is not decided.")
     snapshot_rule(F, R)
+    mangled_name_rule(F, R)
 
 
 def pruning_rule(F, R):
@@ -408,3 +409,49 @@ def snapshot_rule(F, R):
                    "lose their metadata entry while they are still in the module table, and the next require of one compiles and "
                    "evaluates it again in the same engine" % (fn.short(), snap, live, rfn.short()), fn.loc(), sample=True)
     R.floor("C14.r", "snapshot sites", n, 1)
+
+
+def _nearest_root(fn, local):
+    """the call destination a local was (transitively) moved from, or the local itself"""
+    srcs = lib.alias_sources(fn, local)
+    dests = {b["dest"] for _, b in fn.calls()}
+    roots = [s for s in srcs if s in dests]
+    return roots or [local]
+
+
+def mangled_name_rule(F, R):
+    R.rule("C14.n", "the name a module registers for qualification is the name it defines: in compiler::modules, wherever an "
+                    "identifier is put into the `globals` set of names to be module-qualified next to the construction of the "
+                    "definition that re-exports a provided value (Define::new), the identifier and the defined name are the same "
+                    "value — one derives from the other (after aliases and prefixes were applied), not both from an earlier copy. "
+                    "If the original name is registered while the prefixed name is defined, the prefixed definition stays an "
+                    "ordinary global and is visible to every program that requires the requiring module")
+    n = 0
+    for name, fn in sorted(F.fns.items()):
+        if not name.startswith("steel::compiler::modules::") or fn.d["kind"] == "Closure":
+            continue
+        ins = [(i, b) for i, b in fn.calls() if re.search(r"HashSet<T,S(,A)?>\}::insert$", b["callee"]) and
+               any(re.search(r"\bglobals\b|^_\d+$", s) for s in lib.alias_sources(fn, b["args"][0])) and
+               any("InternedString" in t for t in (b.get("targs") or []))]
+        defs = [(i, b) for i, b in fn.calls() if re.search(r"\{impl Define\}::new$", b["callee"])]
+        if not ins or not defs:
+            continue
+        dom = fn.dominators()
+        for k, (i, ib) in enumerate(ins):
+            # the definition built right after the insert (nearest Define::new dominated by the insert)
+            after = [(d, db) for d, db in defs if i in dom.get(d, ())]
+            if not after:
+                continue
+            d, db = min(after, key=lambda t: len(dom[t[0]]))
+            n += 1
+            r_def = _nearest_root(fn, db["args"][0])
+            r_ins = _nearest_root(fn, ib["args"][1])
+            ok = any(x in lib.tainted_locals(fn, r_def) for x in lib.TOK.findall(ib["args"][1])) or \
+                any(x in lib.tainted_locals(fn, r_ins) for x in lib.TOK.findall(db["args"][0]))
+            R.inst("C14.n", "%s / registered name #%d is the defined name" % (fn.short(), k), ok,
+                   "%s registers an identifier for module qualification (line %s) that is not the name of the definition it builds "
+                   "next (line %s): neither derives from the other. With (require (prefix-in n: \"n.scm\")) inside a module and a "
+                   "(contract/out inc …) provide in n.scm, `inc` is registered but `n:inc` is defined — an unqualified global that "
+                   "any program requiring the outer module can call" % (fn.short(), ib.get("line"), db.get("line")),
+                   fn.loc(ib.get("line")), sample=True)
+    R.floor("C14.n", "registered-name / definition pairs", n, 2)
